@@ -92,6 +92,9 @@ func drawParams(r *rand.Rand) circParams {
 
 func drawCall(r *rand.Rand, p *circParams, live *liveCfg) *callSpec {
 	c := &callSpec{HasRun: r.Intn(20) != 0, HasFb: r.Intn(2) == 0, Entry: hc.Pick(r, "execute", "execute", "run", "go")}
+	if hc.PastEpoch {
+		c.Entry = hc.Pick(r, "execute", "run")
+	}
 	if p.Mode != "normal" || live.Disabled {
 		c.HasRun = true // a nil run function on a pass-through circuit is a nil dereference (excluded by C08's text)
 	}
@@ -100,6 +103,9 @@ func drawCall(r *rand.Rand, p *circParams, live *liveCfg) *callSpec {
 		c.Deadline = i64p(hc.Pick(r, int64(1), ms/2, 500*ms, 3600*sec)) // often earlier than start+Timeout
 	case 1:
 		c.Deadline = i64p(100000 * sec)
+	}
+	if hc.PastEpoch {
+		c.Deadline = nil
 	}
 	if c.Entry != "go" && r.Intn(12) == 0 {
 		c.Done = true
@@ -306,7 +312,27 @@ func (circFamily) Gen(r *rand.Rand, i int, tier string) *hc.Case {
 	return c
 }
 
-func (circFamily) Corpus(tier string) []*hc.Case { return circCorpus() }
+func (circFamily) Corpus(tier string) []*hc.Case {
+	all := circCorpus()
+	if !hc.PastEpoch {
+		return all
+	}
+	var keep []*hc.Case // past epoch: no Go entry point, no caller deadlines (see hc.PastEpoch)
+	for _, c := range all {
+		ok := true
+		for _, raw := range c.Ops {
+			var o circOp
+			must(json.Unmarshal(raw, &o))
+			if o.Call != nil && (o.Call.Entry == "go" || o.Call.Deadline != nil) {
+				ok = false
+			}
+		}
+		if ok {
+			keep = append(keep, c)
+		}
+	}
+	return keep
+}
 
 func (circFamily) Exec(c *hc.Case) {
 	var p circParams
